@@ -79,7 +79,7 @@ structure SRelC (M : List (Handle × CItem)) (T T' : Tables) : Prop where
   fr : FrC T' T
   seen : ∀ h, seenC T h ≤ seenC T' h
   chg : ∀ h a b, findC T h = some a → findC T' h = some b → a = b ∨ a.sv < b.sv
-  src : ∀ h b, findC T' h = some b → findC T h = some b ∨ h ∈ M.map (·.1)
+  src : ∀ h b, findC T' h = some b → findC T h = some b ∨ ∃ p ∈ M, p.1 = h ∧ p.2.new = some b
 
 theorem SRelC.of_apply {M : List (Handle × CItem)} {T : Tables} (hi : CItemsOK true T M) : SRelC M T (applyCItems T M).1 := by
   refine ⟨applyCItems_frame T M, applyCItems_seenC hi, fun h a b ha hb => applyCItems_change hi ha hb, ?_⟩
@@ -87,7 +87,7 @@ theorem SRelC.of_apply {M : List (Handle × CItem)} {T : Tables} (hi : CItemsOK 
   rw [applyCItems_findC hi] at hb
   cases hg : dictGet M h with
   | none => rw [hg] at hb; exact .inl hb
-  | some it => exact .inr (List.mem_map.2 ⟨(h, it), dictGet_some_mem hg, rfl⟩)
+  | some it => rw [hg] at hb; exact .inr ⟨(h, it), dictGet_some_mem hg, rfl, hb⟩
 
 /-- what is known between two of the five single-state dicts: the items `L` whose kind is in `done` have been written -/
 structure SB (L : List (Handle × SItem)) (done : List Kind) (C : Handle → Prop) (T : Tables) : Prop where
@@ -194,7 +194,7 @@ structure CommitRel (X : DTx) (T T' : Tables) : Prop where
   chgS : ∀ h a, findS T h = some a → ∃ b, findS T' h = some b ∧ (a = b ∨ a.sv < b.sv)
   srcS : ∀ h b, findS T' h = some b → findS T h = some b ∨ h ∈ X.sItems.map (·.1)
   chgC : ∀ h a b, findC T h = some a → findC T' h = some b → a = b ∨ a.sv < b.sv
-  srcC : ∀ h b, findC T' h = some b → findC T h = some b ∨ h ∈ X.cItems.map (·.1)
+  srcC : ∀ h b, findC T' h = some b → findC T h = some b ∨ ∃ p ∈ X.cItems, p.1 = h ∧ p.2.new = some b
 
 theorem CommitRel.mk3 {X : DTx} {A B C D : Tables} (r1 : SRelS X.sItems A B) (r2 : SRelC X.cItems B C) (r3 : SRelS X.sItems C D) :
     CommitRel X A D := by
@@ -417,7 +417,7 @@ theorem commitD_mono {t : Tables} (hw : WF t) (hk : KOK t) {tx : DTx} (hi : DTxO
           rcases R.srcC h b hb with hcb | hkey
           · have := S.cSame h b hcb
             rw [ha] at this; exact .inl (Option.some.inj this)
-          · obtain ⟨p, hp, rfl⟩ := List.mem_map.1 hkey
+          · obtain ⟨p, hp, rfl, _⟩ := hkey
             cases hf : findC c.t p.1 with
             | none =>
               have := h1.ciOld0 p hp (by rw [(h1.ci p hp).old, hf])
